@@ -305,7 +305,7 @@ def analyse(case, out):
                     # scenario (a): a writer gives up while only readers hold; readers queued behind it stay queued
                     if m == 'W' and holders[obj] and all(x[1] == 'R' for x in holders[obj]):
                         ws = definite_waiters(j, obj)
-                        if ws and all(mm == 'R' for _, _, mm in ws) and possible_writers(j, obj) == [k]:
+                        if ws and all(mm == 'R' for _, _, mm in ws) and not possible_writers(j, obj):
                             late = [kk for kk, pp, mm in ws if (kk, pp) not in done or res['tr'][done[(kk, pp)]][4] > now]
                             if late:
                                 fails.append(('convoy', 'writer T%d gave up at t=%d while only readers %s hold lock %d; readers T%s stay queued '
@@ -397,7 +397,7 @@ class Check(DiffCheck):
         if os.path.exists(cp):
             cs += [l.strip() for l in open(cp) if l.strip() and not l.startswith('#')]
         cs += CORPUS
-        nprog = 400 if tier == 'quick' else 20000
+        nprog = 400 if tier == 'quick' else 8000
         for i in range(nprog):
             cs.append(gen_prog(rng, big=(i % 10 == 9)))
         cs += gen_q_exhaustive(tier)
